@@ -116,6 +116,17 @@ Theorem Helper_tdata_to_state t k x :
 Proof. destruct x; reflexivity. Qed.
 Theorem Helper_time_get (t : Z) : run_fn c (g_time_get c) (m_t t) [] = Some (Ok (m_t t, MOk (m_t t))).
 Proof. reflexivity. Qed.
+
+(* MotionProfilePiece -> PositionDerivative (C06: the mode of a piece; C01: the unit of a piece goes through it) *)
+Definition m_piece (x : piece) : @mval F :=
+  MVariant (match x with
+            | BeforeStart => "MotionProfilePiece::BeforeStart" | InitialAcceleration => "MotionProfilePiece::InitialAcceleration"
+            | ConstantVelocity => "MotionProfilePiece::ConstantVelocity" | EndAcceleration => "MotionProfilePiece::EndAcceleration"
+            | Complete => "MotionProfilePiece::Complete" end).
+Theorem Helper_piece_to_pd (x : piece) :
+  flatten (eval c (g_piece_to_pd c) [("was", m_piece x)])
+  = Ok (ONorm (match pd_of_piece x with Some d => MOk (MV (VPD d)) | None => MErr MTup0 end) [("was", m_piece x)]).
+Proof. destruct x; reflexivity. Qed.
 End CtorStreams.
 Print Assumptions Ctor_pid.
 Print Assumptions Ctor_cpid.
@@ -144,3 +155,4 @@ Print Assumptions Helper_replace_if_older_than.
 Print Assumptions Helper_tdata_to_command.
 Print Assumptions Helper_tdata_to_state.
 Print Assumptions Helper_time_get.
+Print Assumptions Helper_piece_to_pd.
